@@ -4,6 +4,10 @@ import json, os
 ROOT = os.path.dirname(os.path.dirname(os.path.abspath(__file__)))
 ALL = ["C%02d" % i for i in range(1, 20)]
 CHECKS = {
+ "C10": dict(cat="model_checking", ref="§4 C10",
+   technique="exhaustive enumeration of write/read call histories on the real ROM reader/writer (all length sequences to depth 4/5 from boundary offsets, all banks x boundary offsets) against a window reference model with full-image comparison",
+   text="Every history of Write/Read calls from the stated alphabet is executed on a fresh real ROM object; after every call the whole image and the returned (n, err) are compared with a reference window model. Deviations are classified by alternative models (reader window short by one, legacy writer), so the one recorded known finding is recognised by its exact behaviour and anything else is a violation.",
+   note="Bounded: image sizes 1-4 banks (thorough: also 128 banks), length alphabet {0,1,2,3,4,$7FFE,$7FFF,$8000,$8001}, history depth 4 (5); a partly present last bank is outside the premise."),
  "C04": dict(cat="exploration", ref="§4 C04",
    technique="exhaustive enumeration of all 2^24 bus and 2^24 pak addresses x 4 mappers, composing both translation directions on the real functions",
    text="For every bus address of the whole 24-bit space and every FX Pak Pro address, for each of the four mappers, the real BusAddressToPak/PakAddressToBus are composed and the right-inverse and class/page-offset clauses checked. The input domain is finite and completely enumerated.",
